@@ -11,7 +11,8 @@ EXTENDS WidgetTreeOps, TLC
 
 CONSTANTS Profile,      \* "full" | "rep" | "tiny" | "wt" (wide item-option alphabets of Pile / Columns, everything else tiny)
                         \* | "min" (tiny with one way of sharing the columns: shapes matter, not options)
-          LeafSet,      \* "full" | "rep" | "tiny" | "probe" | "wt" | "shards": which leaves may be pushed
+                        \* | "pad" (Padding: every way of deriving the total width from the width of the child, see the "pad" family)
+          LeafSet,      \* "full" | "rep" | "tiny" | "probe" | "wt" | "shards" | "widths": which leaves may be pushed
           MaxDepth,     \* bound on the depth of the finished term
           MaxKids,      \* bound on the number of children of a container
           SibDepth,     \* all stack entries except one must have depth <= SibDepth (exhaustive runs: 0)
@@ -20,6 +21,7 @@ CONSTANTS Profile,      \* "full" | "rep" | "tiny" | "wt" (wide item-option alph
           Kinds         \* "all" | "geom" (the decorations / containers C09 quantifies over) | "scroll" (ScrollBar stacks)
                         \* | "wt" (Pile / Columns only: the space-sharing options, see Profile "wt")
                         \* | "shards" (stackers over clippers over rows of unequal cells: canvases cut through and stacked again)
+                        \* | "pad" (Padding only)
 
 VARIABLES stack, lastop
 vars == <<stack, lastop>>
@@ -49,8 +51,12 @@ ProbeLeaves == {T("Probe", <<1, "box", 1, 1, 1, "all">>, <<>>), T("Probe", <<2, 
                 T("Probe", <<3, "fixed", 3, 2, 1, "norow0">>, <<>>), T("Probe", <<4, "flow", 1, 1, 0, "all">>, <<>>),
                 T("Probe", <<5, "box", 1, 1, 0, "all">>, <<>>), T("Probe", <<6, "fixed", 2, 1, 1, "all">>, <<>>),
                 T("Probe", <<7, "flow", 2, 3, 1, "all">>, <<>>)}
-RealCursorLeaves == {T("TEdit", <<8, "ab", "ascii", 0, "mid">>, <<>>), T("TEdit", <<9, "empty", "nl", 1, "end">>, <<>>),
-                     T("TIcon", <<10, "ab", 1>>, <<>>)}
+\* TEdit: <<id, caption, text, multiline, cursor, wrap>>.  The last two are the layouts in which the VIEW follows the cursor: a text that
+\* fills its line exactly (2 columns: a ("given", 2) column, the width pack() asks for) with the cursor behind it, and a clipped
+\* line longer than most widths it is given
+RealCursorLeaves == {T("TEdit", <<8, "ab", "ascii", 0, "mid", "space">>, <<>>), T("TEdit", <<9, "empty", "nl", 1, "end", "space">>, <<>>),
+                     T("TIcon", <<10, "ab", 1>>, <<>>),
+                     T("TEdit", <<11, "empty", "ab", 0, "end", "space">>, <<>>), T("TEdit", <<12, "empty", "ascii", 0, "end", "clip">>, <<>>)}
 LeavesFull == TextLeavesFull \cup EditLeavesFull \cup WimpLeavesFull \cup MiscLeavesFull \cup ProbeLeaves
 LeavesRep == {T("Text", <<"ascii", "space", "left", 0>>, <<>>), T("Text", <<"cjk", "any", "center", 0>>, <<>>),
               T("Text", <<"nl", "clip", "right", 1>>, <<>>), T("Text", <<"acjk", "ellipsis", "left", 0>>, <<>>),
@@ -70,7 +76,14 @@ LeavesWt == {T("Text", <<"ascii", "space", "left", 0>>, <<>>), T("SolidFill", <<
 \* "shards": cells of different heights (one line, three lines; simulation adds a divider with a blank row above and below and a three-line Edit) and a box cell
 LeavesShards == {T("Text", <<"a", "space", "left", 0>>, <<>>), T("Text", <<"nl", "clip", "left", 0>>, <<>>), T("SolidFill", <<"line">>, <<>>)}
                 \cup (IF Sim THEN {T("Divider", <<"dash", 1, 1>>, <<>>), T("Edit", <<"empty", "nl", 1, "end", "left", "clip">>, <<>>)} ELSE {})
+\* "widths": fixed-capable leaves of as many different widths as the text alphabet has (0, 1, 2, 4, 5, 6, 7, 8, 10, 11, 30 columns ...):
+\* a widget that derives its own size from its child's (Padding with a relative width used as a FIXED widget) computes with them
+LeavesWidths == {T("Text", <<x, "space", "left", 0>>, <<>>) : x \in TextIdsFull}
+                \cup {T("BigText", <<x, "thin3">>, <<>>) : x \in {"1", "12"}}
+                \cup {T("Button", <<"ab">>, <<>>), T("CheckBox", <<"cjk", 1>>, <<>>), T("SelectableIcon", <<"nlw", 1>>, <<>>),
+                      T("Probe", <<3, "fixed", 3, 2, 1, "norow0">>, <<>>), T("Probe", <<6, "fixed", 2, 1, 1, "all">>, <<>>)}
 Leaves == CASE LeafSet = "full" -> LeavesFull
+            [] LeafSet = "widths" -> LeavesWidths
             [] LeafSet = "rep" -> LeavesRep
             [] LeafSet = "tiny" -> LeavesTiny
             [] LeafSet = "wt" -> LeavesWt
@@ -83,6 +96,10 @@ VAligns == {"top", "middle", "bottom", "rel30"}
 PaddingOpts ==
   CASE Profile = "full" -> {<<a, w, mw, l, r>> : a \in HAligns, w \in {"rel100", "rel60", "pack", "clip", "g3", "g1"},
                                                 mw \in {0, 2}, l \in {0, 1, 2}, r \in {0, 1}}
+    \* the "pad" family: total width = child width * 100 / percentage, a fraction for most pairs and exactly k + 1/2 for some
+    \* (80 %: 2, 6, 10 columns; 40 %: 1, 3, 5 ...; 8 %: every odd width), with and without a minimum and fixed margins
+    [] Profile = "pad" -> {<<a, w, mw, l, r>> : a \in {"left"}, w \in {"rel100", "rel80", "rel60", "rel40", "rel30", "rel8", "pack"},
+                                               mw \in {0, 2}, l \in {0, 1}, r \in {0, 1}}
     [] Profile = "rep" -> {<<"left", "rel100", 0, 1, 1>>, <<"center", "rel60", 0, 0, 0>>, <<"right", "pack", 0, 0, 1>>,
                            <<"rel30", "g3", 0, 1, 0>>, <<"right", "clip", 0, 0, 0>>, <<"center", "pack", 2, 2, 0>>,
                            <<"left", "g1", 2, 0, 0>>, <<"right", "rel60", 2, 0, 2>>}
@@ -143,10 +160,12 @@ ContOpts(K, k) ==
 DecoUsed == CASE Kinds = "geom" -> {"Padding", "Filler", "LineBox", "AttrMap", "BoxAdapter"}
               [] Kinds = "scroll" -> {"Scrollable", "ScrollBar"}
               [] Kinds = "wt" -> {}
+              [] Kinds = "pad" -> {"Padding"}
               [] Kinds = "shards" -> {"Filler", "BoxAdapter"}                    \* the decorations that cut a canvas at the bottom
               [] OTHER -> DecoKinds
 ContUsed == CASE Kinds = "scroll" -> {"ListBox"}
               [] Kinds = "wt" -> {"Pile", "Columns"}
+              [] Kinds = "pad" -> {}
               [] Kinds = "shards" -> {"Pile", "Columns", "ListBox", "Frame", "Overlay"}
               [] OTHER -> ContKinds
 \* the number of children of a Frame is fixed by its options (body, header?, footer?), not by the bound on list-like containers
